@@ -133,6 +133,11 @@ let predict (c : string) (obs : string) : string * string * bool =
       let ssl = bool_of_field (next ()) in
       let (ka, opts, gtoks) = parse_ka (next ()) in
       let no_dns_cache = List.mem "c" gtoks and h2 = List.mem "2" gtoks in
+      (* net/http, not the gun: a request parsed by http.ReadRequest (raw ammo: its Body is net/http's server-side body type) sent
+         through http.Client.Do (the gun's client when `redirect: true`) does not always get its connection reused — reproduced with
+         net/http alone (5 % of 1000 rounds under load; never through Transport.RoundTrip, never with a bytes.Reader body; see
+         design/C09.md).  For raw + redirect the connection count is therefore only bounded by the number of requests. *)
+      let loose_conn = (f = FRaw) && List.mem "r" gtoks in
       let (inst, sc) = (match String.split_on_char ':' (next ()) with
                         | [i] -> (int_of_string i, parse_sc "n")
                         | i :: s :: _ -> (int_of_string i, parse_sc s)
@@ -209,9 +214,9 @@ let predict (c : string) (obs : string) : string * string * bool =
                  let nt = List.length (List.filter (fun r -> String.length r.srv > 0 && r.srv.[0] = 'T') recs) in
                  let want_probes = if tgt = "name" && not late && not no_dns_cache then pools else 0 in
                  let good = probes = want_probes
-                   && conn_ok ka sc.sc_enabled (nat_of_int (inst * pools)) (nat_of_int nt) (nat_of_int carrying)
+                   && conn_ok ka (sc.sc_enabled || loose_conn) (nat_of_int (inst * pools)) (nat_of_int nt) (nat_of_int carrying)
                    && fu >= 0
-                   && conn_ok ka sc.sc_enabled (nat_of_int (inst * pools + probes)) (nat_of_int (nt + probes + fu)) (nat_of_int accepted) in
+                   && conn_ok ka (sc.sc_enabled || loose_conn) (nat_of_int (inst * pools + probes)) (nat_of_int (nt + probes + fu)) (nat_of_int accepted) in
                  ((if good then conn else "outside-conn_ok"), good)
              | _ -> ("unparsable", false))
         | None -> ("unparsable", false)) in
